@@ -341,6 +341,16 @@ def classify_call(P, fn, s):
         if ex is not None and n is not None:
             room = (ex[0] - ex[1]) * ex[2]
             return ('5 mem*(array, ., n<=sizeof array)', 'n=%d size=%d' % (n, room)) if n <= room else (None, 'n=%d exceeds %d' % (n, room))
+        # idiom 18 (fill): memset(p, c, (lim + J) - p) with p a pointer cursor that never passes lim, K + J <= extent
+        if name == 'memset' and is_var(d) and isinstance(a[2], dict) and a[2].get('k') == 'bin' and a[2].get('op') == '-' and is_var(a[2].get('r'), d['name']):
+            pc = _ptr_cursor(fn, d['name'])
+            if pc is not None:
+                top = a[2]['l']
+                J = 0
+                if isinstance(top, dict) and top.get('k') == 'bin' and top.get('op') == '+' and isinstance(const_of(top.get('r')), int):
+                    J, top = const_of(top['r']), top['l']
+                if is_var(top, pc[3]) and J >= 0 and pc[2] + J <= pc[1]:
+                    return '18 memset(p, c, (array + K + J) - p) with p a cursor that never passes array + K', 'K=%d J=%d extent=%d' % (pc[2], J, pc[1])
         # idiom 17: mem*(array + off, ., sizeof array - off): fill / copy "to the end of the array"
         if isinstance(d, dict) and d.get('k') == 'bin' and d.get('op') == '+' and is_var(d.get('r')) and extent_of(fn, d['l']) is not None \
                 and isinstance(a[2], dict) and a[2].get('k') == 'bin' and a[2].get('op') == '-' and is_var(a[2].get('r'), d['r']['name']) and const_of(a[2]['l']) is not None:
@@ -447,6 +457,51 @@ def classify_call(P, fn, s):
     return None, 'unbounded sink %s' % name
 
 
+def _ptr_cursor(fn, pv):
+    """pointer cursor idiom 18: local `p` initialised to an array A (extent E), local `lim` = A + K (K <= E), p moved
+    only by ++ at sites dominated by p < lim.  Returns (A-expr, E, K, lim name) or None."""
+    init = None
+    for t in fn.sites():
+        ev = t.ev
+        if ev['k'] == 'decl' and ev.get('var') == pv and ev.get('init') is not None:
+            init = ev['init']
+        if ev['k'] == 'store' and is_var(ev.get('lhs'), pv) and ev.get('op') == '=':
+            if init is not None:
+                return None
+            init = ev.get('rhs')
+    if not isinstance(init, dict):
+        return None
+    ex = extent_of(fn, init)
+    if ex is None or ex[1] != 0 or ex[2] != 1:
+        return None
+    lims = {}
+    for b in fn.blocks:
+        for e in fn.out[b]:
+            r = e.rel()
+            if r and is_var(r[0], pv) and r[1] == '<' and is_var(r[2]) and fn.single_def(r[2]['name']):
+                d = fn.single_def(r[2]['name'])[1]
+                if isinstance(d, dict) and d.get('k') == 'bin' and d.get('op') == '+' and same(d.get('l'), init) and isinstance(const_of(d.get('r')), int):
+                    lims[r[2]['name']] = const_of(d['r'])
+    if len(lims) != 1:
+        return None
+    lim, K = list(lims.items())[0]
+    if K > ex[0]:
+        return None
+    # every movement of p is a ++ under p < lim
+    for t in fn.sites():
+        moved = (t.ev['k'] == 'store' and is_var(t.ev.get('lhs'), pv) and t.ev.get('op') not in ('=',)) or \
+            any(x.get('k') == 'un' and x.get('op') in ('++', '--') and is_var(x.get('e'), pv) for ex2 in rules.event_exprs(t.ev) for x in walk(ex2) if t.ev['k'] != 'store' or not is_var(t.ev.get('lhs'), pv))
+        if not moved:
+            continue
+        if t.ev['k'] == 'store' and is_var(t.ev.get('lhs'), pv) and t.ev.get('op') != '++':
+            return None
+        if any(x.get('k') == 'un' and x.get('op') == '--' and is_var(x.get('e'), pv) for ex2 in rules.event_exprs(t.ev) for x in walk(ex2)):
+            return None
+        if not any(is_var(g[0], pv) and g[1] == '<' and is_var(g[2], lim) for g in fn.guards(t.bid)):
+            return None
+    return init, ex[0], K, lim
+
+
 def classify_store(P, fn, s, cache):
     """Indexed stores: (idiom, explanation) / (None, reason) / ('skip', ..) when not a sink."""
     ev = s.ev
@@ -473,6 +528,12 @@ def classify_store(P, fn, s, cache):
             early = [t for t in fn.block_sites(s.bid)[:s.idx] if is_var(t.ev.get('lhs'), p) and t.ev.get('id') != inner.get('ev')]
             if ok and not early:
                 return '14 in-place terminator *p++ = 0 after the test *p != 0', 'p=%s' % p
+        # idiom 18: *p++ = x with p a pointer cursor over an array, under p < array + K
+        pe = inner['e'] if inner.get('k') == 'un' and inner.get('op') == '++' and is_var(inner.get('e')) else None
+        if pe is not None:
+            pc = _ptr_cursor(fn, pe['name'])
+            if pc is not None and any(is_var(g[0], pe['name']) and g[1] == '<' and is_var(g[2], pc[3]) for g in fn.guards(s.bid)):
+                return '18 *p++ = x with p a cursor over an array, under p < array + K', 'K=%d extent=%d' % (pc[2], pc[1])
         return None, 'store through computed pointer %s' % sx(lhs)
     if lhs.get('k') != 'idx':
         return 'skip', ''
